@@ -1,6 +1,6 @@
 import os, sys
 sys.path.insert(0, os.path.join(os.path.dirname(os.path.abspath(__file__)), '..', 'common'))
-import srcsets_tree
+import srcsets_tree, srcsets_real
 HARNESSES = [
     {'name': 'h_hdr', 'src': 'C15/h_hdr.cpp', 'entry': 'h_hdr', 'repo_srcs': srcsets_tree.BTC_TREE, 'covers': [1, 2, 3, 4, 5, 6, 7], 'jobs': 16,
      'obligations': ['BTC acceptBlockHeader accepts iff: parent known and valid, hash <= target(bits), bits == difficulty prescribed after the parent (incl. min-difficulty walk-back), time >= median-time-past, time <= now + future limit',
@@ -10,6 +10,11 @@ HARNESSES = [
      'rungs': {'quick': [{'defines': ['NCH=3'], 'bound': 'any reachable tree of 3 blocks (symbolic parents, 8 timestamps, 2 difficulties), symbolic clock, min-difficulty rule on/off, one symbolic header (3 symbolic hash bytes)', 'timeout': 250}],
                'thorough': [{'defines': ['NCH=5'], 'bound': 'any reachable tree of 5 blocks, otherwise as quick', 'timeout': 2400},
                             {'defines': ['NCH=4'], 'bound': 'any reachable tree of 4 blocks', 'timeout': 900}]}},
+    {'name': 'h_vbkhdr', 'src': 'C15/h_vbkhdr.cpp', 'entry': 'h_vbkhdr', 'repo_srcs': srcsets_real.REAL, 'covers': [1, 2, 3, 4, 5], 'jobs': 16,
+     'obligations': ['VBK acceptBlockHeader accepts iff: parent known, PoW, difficulty as prescribed (no retargeting: the parent\'s), time >= median of the last <=20 timestamps and <= now + limit, previous and second previous keystone references exactly as prescribed (interval 3)',
+                     'accepted VBK header: links, height, chainWork == parent + proof, best chain has the most work'],
+     'rungs': {'quick': [{'defines': ['NCH=5'], 'bound': 'valid VBK chain of 5 blocks (symbolic timestamps, last block may fork anywhere), header on any block with symbolic keystone mutations (2x8 bits), 4 timestamp choices around the limits, difficulty/parent/PoW mutations', 'timeout': 250}],
+               'thorough': [{'defines': ['NCH=8'], 'bound': 'chain of 8 blocks, otherwise as quick', 'timeout': 2400}]}},
 ]
 EXPLANATION = 'Header acceptance of the real BTC tree is compared on every path with an independent implementation of the contextual rules written over plain integers.'
-ASSUMPTIONS = ['no retarget boundary is crossed (interval 2016); retarget arithmetic is a separate obligation', 'hash = 3 symbolic high bytes + id; SHA-256 not encoded', 'VBK header rules (keystones, VBK retarget) not covered yet']
+ASSUMPTIONS = ['no retarget boundary is crossed (interval 2016); retarget arithmetic is a separate obligation', 'hash = 3 symbolic high bytes + id; SHA-256 not encoded', 'VBK retarget arithmetic (regtest does not retarget) and checkVbkBlockPlausibility are not covered']
